@@ -12,11 +12,12 @@ GROUP_FUNCS = {
     'wrapsplit': 'the index expressions and trimming loop of NiftiWrapper.split',
     'wrapmerge': 'the result shape and fill slices of NiftiWrapper.from_sequence',
     'stack': 'the count checks of get_shape, the thorough check of _chk_order', 'stackadd': 'add_dcm, _chk_congruent, _chk_close, _chk_equal',
-    'phoenix': '_parse_phoenix_line',
+    'phoenix': '_parse_phoenix_line, parse_phoenix_prot',
     'extract': 'the four default ignore rules of MetaExtractor',
     'cli': 'the naming of output files in dcmstack_cli.main',
     'group': 'the placement step of parse_and_group',
     'filter': 'make_key_regex_filter with its inner function',
+    'content': 'filter_meta, clear_slice_meta, get_keys (whole methods over the nested dictionaries)',
     'orient': 'the voxel_order checks of reorder_voxels',
     'header': 'the repetition-time, dim_info and slice-timing blocks of to_nifti', 'data': 'the trimming block and file index expressions of get_data'}
 
